@@ -6,6 +6,7 @@ import (
 	"io"
 	"net"
 	"sync"
+	"time"
 
 	"github.com/fiorix/go-diameter/v4/diam"
 	"github.com/fiorix/go-diameter/v4/diam/datatype"
@@ -27,10 +28,11 @@ func init() {
 			{Name: "retry", Weight: 4, Run: c07Retry},
 			{Name: "concurrent-sctp", Weight: 2, Bubble: true, Run: c07Sctp},
 			{Name: "retry-conn", Weight: 2, Bubble: true, Run: c07RetryConn},
+			{Name: "retry-write-timeout", Weight: 1, Bubble: true, Run: c07RetryTimeout},
 			{Name: "sweep-retry", Run: c07Sweep, SweepN: c07SweepN, QuickSweep: true, Exhaustive: true,
 				SweepNote: "every sequence of up to 3 outcomes over {accept 0, 1, half, all} x {temporary, permanent, plain error} (then success), x retry budgets 0..3 x {io.Writer, MultistreamWriter}: 15 080 cases"},
 		},
-		MustProbes: []string{"writer-blocked-on-lock", "stall-with-queued-writers", "retry-resumed", "sctp-concurrent-writes", "sctp-write-stall"},
+		MustProbes: []string{"writer-blocked-on-lock", "stall-with-queued-writers", "retry-resumed", "sctp-concurrent-writes", "sctp-write-stall", "retry-after-write-timeout", "write-timeout"},
 	})
 }
 
@@ -855,4 +857,78 @@ func c07Sctp(e *Env) {
 		}
 	}
 	e.Probe("sctp-concurrent-writes")
+}
+
+// ---------------------------------------------------------------- retry after a write timeout on a served connection
+
+// c07RetryTimeout: a server with WriteTimeout; the peer stops reading in the middle
+// of a message for longer than the timeout, then reads on. With retries the rest is sent.
+func c07RetryTimeout(e *Env) {
+	t := e.T
+	e.TrustWait = true
+	T := []time.Duration{80 * time.Millisecond, time.Second}[t.Draw(2)]
+	sc := newSimConn(e, "c0", drawAddr(t, 3868), drawAddr(t, 40000))
+	lis := newSimListener(e)
+	mux := diam.NewServeMux()
+	got := make(chan diam.Conn, 1)
+	mux.HandleFunc("ALL", func(c diam.Conn, m *diam.Message) {
+		select {
+		case got <- c:
+		default:
+		}
+	})
+	srv := &diam.Server{Handler: mux, Dict: simDict(), WriteTimeout: T}
+	go srv.Serve(lis)
+	lis.Connect(sc)
+	sc.Deliver(RefMsg{Cmd: 900, Flags: 0x80, HbH: 1, E2E: 1, AVPs: []RefAVP{{Code: avpSimOctets, Data: []byte("hello")}}}.Bytes())
+	e.Quiesce()
+	var conn diam.Conn
+	select {
+	case conn = <-got:
+	default:
+		e.Harness("served connection did not reach the handler")
+	}
+	defer func() {
+		sc.EndRead(io.EOF, false)
+		lis.Close()
+		e.Quiesce()
+	}()
+	size := c07Sizes(t)
+	payload := marker(0, 0, size, 5)
+	m := diam.NewMessage(901, diam.RequestFlag, 0, 77, 88, simDict())
+	m.NewAVP(avpSimOctets, 0, 0, datatype.OctetString(payload))
+	want := RefMsg{Cmd: 901, Flags: 0x80, HbH: 77, E2E: 88, AVPs: []RefAVP{{Code: avpSimOctets, Data: payload}}}.Bytes()
+	retries := t.Range(0, 3)
+	acc := t.Range(0, len(want)-1)
+	sc.ArmWriteFault(&WriteFault{Kind: "stall", After: acc})
+	e.Act("retry-timeout", "len=%d retries=%d stall-after=%d T=%v", len(want), retries, acc, T)
+	var n int64
+	var werr error
+	done := make(chan struct{})
+	go func() { n, werr = m.WriteToWithRetry(conn, uint(retries)); close(done) }()
+	e.Quiesce()
+	// the peer does not read for longer than the write timeout
+	e.Advance(T + T/2)
+	e.Quiesce()
+	sc.Resume() // (no-op if the deadline already ended the stalled write)
+	e.Quiesce()
+	select {
+	case <-done:
+	default:
+		e.Fail("C07/write-never-returned/timeout", "the write did not return after the write timeout")
+		return
+	}
+	e.NonTrivial()
+	log := sc.Written()
+	if retries == 0 {
+		if werr == nil {
+			e.Fail("C07/retry-via-conn/error-swallowed", "the transport timed out after %d bytes, no retry was asked for, and the write reported success", acc)
+		}
+		return
+	}
+	if werr != nil || !bytes.Equal(log, want) || int(n) != len(want) {
+		e.Fail("C07/retry-via-conn/remaining-not-sent/timeout", "write timeout after %d of %d bytes, %d retries asked for: %d bytes reached the transport, n=%d err=%v", acc, len(want), retries, len(log), n, werr)
+		return
+	}
+	e.Probe("retry-after-write-timeout")
 }
